@@ -111,6 +111,22 @@ theorem wrap_effect {h h' : Heap} {x w p : Nat} (hg : Good2 h) (hp : h.parent x 
     (∀ n, n ≠ p → n ≠ w → h'.kids n = (h.kids n).erase w) :=
   BS.Heap.wrap_effect hg hp hw hws hxw hwp hr
 
+/-- **extend(xs)** (distinct elements, wherever they were — this tag included): they end up at the end of the tag's children in the
+    given order; every other children list only loses them; each has the tag as parent -/
+theorem extend_effect {h h' : Heap} {p : Nat} {xs : List Nat} (hg : Good2 h) (hp : (h.kind p).isTag = true)
+    (hnd : xs.Nodup) (hk : ∀ x ∈ xs, h.kind x ≠ .soup) (he : extendList h p (xs.map Arg.node) = .ok h') :
+    Good2 h' ∧ h'.kids p = (h.kids p).filter (fun k => !xs.contains k) ++ xs ∧
+    (∀ n, n ≠ p → h'.kids n = (h.kids n).filter (fun k => !xs.contains k)) ∧ (∀ x ∈ xs, h'.parent x = some p) :=
+  BS.Heap.appendAll_effect xs h h' p hg hp hnd hk he
+
+/-- **`tag.string = v`**: the former children come back detached, the tag's only child is a NEW string object (the next unused
+    identity), no other children list changes -/
+theorem set_string_effect {h h' : Heap} {t : Nat} {k : Kind} {v : PStr} (hg : Good2 h) (ht : (h.kind t).isTag = true)
+    (hk : k = .str ∨ k = .pre) (hs : setString h t k v = .ok h') :
+    Good2 h' ∧ h'.kids t = [h.next] ∧ h'.parent h.next = some t ∧ (∀ n, n ≠ t → h'.kids n = h.kids n) ∧
+    (∀ n, n ≠ h.next → h'.parent n = if n ∈ h.kids t then none else h.parent n) :=
+  BS.Heap.setString_effect hg ht hk hs
+
 /-! non-vacuity: the calls succeed on a concrete tree (`t0` with children `[1,2,3,4]`) and give the stated lists -/
 def wFour : Except Err Heap :=
   run (Heap.init [.tag, .tag, .tag, .tag, .tag])
@@ -120,6 +136,8 @@ example : (wFour.bind fun h => (insertAfter h 2 [.node 1]).map (·.kids 0)).toOp
 example : (wFour.bind fun h => (append h 0 (.node 2)).map (·.kids 0)).toOption = some [1, 3, 4, 2] := by decide
 example : (wFour.bind fun h => (unwrap h 0).map (·.kids 0)).toOption = none := by decide   -- no parent: ValueError
 example : (wFour.bind fun h => (clear h 0).map (·.kids 0)).toOption = some [] := by decide
+example : (wFour.bind fun h => (extendList h 0 [.node 3, .node 1]).map (·.kids 0)).toOption = some [2, 4, 3, 1] := by decide
+example : (wFour.bind fun h => (setString h 0 .str [120]).map (fun h => (h.kids 0, h.parent 2))).toOption = some ([5], none) := by decide
 def wFive : Except Err Heap :=
   run (Heap.init [.tag, .tag, .tag, .tag, .tag, .tag])
     [.append 0 (.node 1), .append 0 (.node 2), .append 0 (.node 3), .append 5 (.node 4)]
